@@ -252,6 +252,39 @@ CHECKS = {
           "nillable in the schema; WSDL header message of a class also used as a bare message.",
   'technique': 'Coq proof over Gallina models of the XML/SOAP codecs and the call pipeline + generated-token translator (xmlwire) + model-vs-implementation correspondence + independent-decoder oracle (reference XSD codec, zeep in-process, Spyne client)',
  },
+ 'C02': {
+  'text': "A value of a declared type (Integer of any magnitude, Unicode, Boolean, finite Double, Decimal, ByteArray, objects with "
+          "inheritance, arrays, repeated and optional members) sent by the documented conventions of JsonDocument, YamlDocument, "
+          "MessagePackDocument and MessagePackRpc enters the user function as the same value, and the returned value is written "
+          "as the conventional document that decodes to it, for every type universe, every user function and all 48 "
+          "configurations (ignore_wrappers x complex_as x polymorphic x validator).",
+  'design_ref': 'DESIGN.md section 6 (C02)',
+  'note': TB + "Proved over a model of hier.py/_base.py/json/yaml/msgpack leaf handlers (Wire/Dict.v) against the documented "
+          "conventions (C02/Spec.v), tied to the source by a fail-closed translator (dictdoc: deserialize read statement by "
+          "statement, source guards, rpc envelope) and ~16.8k vm_compute correspondence cases per run; wrapped body style only "
+          "(bare is C18's); responses are read by a reference decoder; two regions (complex_as=list with ignore_wrappers=False; "
+          "subclass instances with polymorphic + ignore_wrappers) are refuted in the model and listed as findings; all repairs "
+          "(four C02 patches, the null-member fix, and C10's malformed-input repairs the model follows) are on /repo main.",
+  'technique': 'Coq proof (model/spec split, fuel-indexed structural readers, induction on value depth, UTF-8 and Decimal text round trips, reuse of C08 theorems) + ast translator (dictdoc) + model-vs-implementation correspondence + reference-codec oracle through the ServerBase pipeline',
+ },
+ 'C10': {
+  'text': "For every request byte string, request decoding (XmlDocument, Soap11/12, JsonDocument, YamlDocument, "
+          "MessagePackDocument; validator None/soft/lxml; through ServerBase and WsgiApplication.handle_rpc) ends in a call of "
+          "the user function or in a fault whose code is Client or Client.*; no exception escapes, no Server fault is produced "
+          "for malformed input, and the user function runs only if no stage raised.",
+  'design_ref': 'DESIGN.md section 6 (C10)',
+  'note': TB + "Proved over Gallina models of the repaired code: all XML document trees (elements, comments, PIs, entity "
+          "references, attributes, namespace maps, xsi:nil/xsi:type) and all dict-document values, all well-formed applications "
+          "of the modelled universe, all parser-library failures in the declared raise sets. except-clauses, guards, fault "
+          "codes, class hierarchy and the handle_rpc skeleton are regenerated from the source each run (Gen/ReqPipe.v), so "
+          "narrowing an except or dropping a guard breaks a proof. 23 crash/Server-fault sites repaired by C10 patches (one more "
+          "superseded by C01's removal of the child-attribute loop), 8 by other properties' fixes on main; findings: PyYAML "
+          "AttributeError/KeyError on explicit !!timestamp/!!bool tags (C10_syntax_yaml_refuted / _partial) and a libyaml stack "
+          "overflow on ~10^4-deep nesting. Decimal, Double, Uuid, facets, AnyDict/AnyXml, inheritance, SOAP href/headers, "
+          "MessagePackRpc and HttpRpc are decided by the direct oracle only; response serialisation, time and memory are not "
+          "modelled.",
+  'technique': 'Coq proof (structural induction on document trees, fuel-indexed induction on declared types, case analysis over generated exception tables) + fail-closed ast translator (reqpipe) + model-vs-implementation correspondence (6 protocols x validators incl. WSGI twins, leaf readers) + mutation-campaign oracle over 8 protocols',
+ },
 }
 NOT_APPLICABLE = {}
 
